@@ -439,3 +439,94 @@ theorem logRead_eq_delivered (dec : IncDecoder σd Nat) (enc : IncEncoder σe) (
   exact gen ops (init dec enc) (by simp [init, writesOf])
 
 end Sess
+
+namespace Sess
+open Cd
+variable {σd σe : Type}
+
+/-! ### interact() takes the stream over (pty_spawn.py `__interact_copy` / `__interact_log`)
+
+While `interact()` runs, every chunk read from the child is written to the user's terminal as the raw bytes and, for the
+log files, decoded **by the spawn's own persistent decoder** — the one `read_nonblocking` uses — so a character the last
+`expect()` read only the first bytes of is completed by the first chunk `interact()` copies. -/
+
+inductive Op2 where
+  | op (o : Op)
+  | iread (chunk : List Byte)       -- one chunk copied by interact(): logged (direction read), not delivered to the caller
+deriving Repr
+
+def interactRead (dec : IncDecoder σd Nat) (st : St σd σe) (chunk : List Byte) : St σd σe :=
+  let r := dec.feed st.dec chunk
+  logBoth { st with dec := r.1 } .read r.2
+
+def step2 (dec : IncDecoder σd Nat) (enc : IncEncoder σe) (cfg : Cfg) (st : St σd σe) : Op2 → St σd σe
+  | .op o => step dec enc cfg st o
+  | .iread c => interactRead dec st c
+
+def run2 (dec : IncDecoder σd Nat) (enc : IncEncoder σe) (cfg : Cfg) (st : St σd σe) (ops : List Op2) : St σd σe :=
+  ops.foldl (step2 dec enc cfg) st
+
+/-- every byte that came from the child, whoever read it -/
+def childBytes : List Op2 → List Byte
+  | [] => []
+  | .op (.read c) :: r => c ++ childBytes r
+  | .iread c :: r => c ++ childBytes r
+  | _ :: r => childBytes r
+
+def readText (l : List LogEv) : List Nat := ((writesOf l).map (·.2)).flatten
+
+theorem writesOf_append (a b : List LogEv) : writesOf (a ++ b) = writesOf a ++ writesOf b := by
+  induction a with
+  | nil => rfl
+  | cons x t iht => cases x <;> simp [writesOf, iht]
+
+theorem readText_append (a b : List LogEv) : readText (a ++ b) = readText a ++ readText b := by
+  simp [readText, writesOf_append]
+
+/-- one step: what `logfile_read` gains is the decoding of the child bytes of that step by the state the decoder was in -/
+theorem step2_logRead (dec : IncDecoder σd Nat) (enc : IncEncoder σe) (cfg : Cfg) (st : St σd σe) (o : Op2) :
+    readText (step2 dec enc cfg st o).logRead = readText st.logRead ++ (dec.feed st.dec (childBytes [o])).2 ∧
+    (step2 dec enc cfg st o).dec = (dec.feed st.dec (childBytes [o])).1 := by
+  cases o with
+  | iread c =>
+    simp only [step2, interactRead, childBytes, List.append_nil]
+    have hl := logBoth_logs ({ st with dec := (dec.feed st.dec c).1 } : St σd σe) .read (dec.feed st.dec c).2
+    have hf := logBoth_fields ({ st with dec := (dec.feed st.dec c).1 } : St σd σe) .read (dec.feed st.dec c).2
+    rw [hl.2.1, hf.1, readText_append]
+    simp [readText, writesOf]
+  | op o =>
+    cases o with
+    | read c =>
+      simp only [step2, step, childBytes, List.append_nil]
+      have hl := logBoth_logs ({ st with dec := (dec.feed st.dec c).1, delivered := st.delivered ++ [(dec.feed st.dec c).2] } : St σd σe) .read (dec.feed st.dec c).2
+      have hf := logBoth_fields ({ st with dec := (dec.feed st.dec c).1, delivered := st.delivered ++ [(dec.feed st.dec c).2] } : St σd σe) .read (dec.feed st.dec c).2
+      rw [hl.2.1, hf.1, readText_append]
+      simp [readText, writesOf]
+    | send s => simp only [step2, step, childBytes, dec.nil]; rw [(doSend_logs enc st s).2.1, (doSend_dec enc st s).1]; simp
+    | sendline s => simp only [step2, step, childBytes, dec.nil]; rw [(doSend_logs enc st _).2.1, (doSend_dec enc st _).1]; simp
+    | writelines ss => simp only [step2, step, childBytes, dec.nil]; rw [(foldl_doSend_logs enc ss st).2.1, (foldl_doSend_dec enc ss st).1]; simp
+    | sendcontrol c => simp only [step2, step, childBytes, dec.nil]; rw [(doControl_logs st _).2.1, (doControl_dec st _).1]; simp
+    | sendeof => simp only [step2, step, childBytes, dec.nil]; rw [(doControl_logs st _).2.1, (doControl_dec st _).1]; simp
+    | sendintr => simp only [step2, step, childBytes, dec.nil]; rw [(doControl_logs st _).2.1, (doControl_dec st _).1]; simp
+
+theorem childBytes_cons (o : Op2) (r : List Op2) : childBytes (o :: r) = childBytes [o] ++ childBytes r := by
+  cases o with
+  | iread c => simp [childBytes]
+  | op o => cases o <;> simp [childBytes]
+
+/-- **hand-over**: over any history of expect()-side reads, sends and interact() copies, the text `logfile_read` holds is the
+    decoding of the child's whole byte stream by one decoder — wherever reads, and the switch between expect() and
+    interact(), cut it -/
+theorem logRead_decodes_whole_stream (dec : IncDecoder σd Nat) (enc : IncEncoder σe) (cfg : Cfg) (ops : List Op2) (st : St σd σe) :
+    readText (run2 dec enc cfg st ops).logRead = readText st.logRead ++ (dec.feed st.dec (childBytes ops)).2 ∧
+    (run2 dec enc cfg st ops).dec = (dec.feed st.dec (childBytes ops)).1 := by
+  induction ops generalizing st with
+  | nil => simp [run2, childBytes, dec.nil]
+  | cons o r ih =>
+    have h1 := step2_logRead dec enc cfg st o
+    have ih' := ih (step2 dec enc cfg st o)
+    simp only [run2, List.foldl_cons] at ih' ⊢
+    rw [childBytes_cons o r, dec.law, ih'.1, ih'.2, h1.1, h1.2]
+    simp
+
+end Sess
